@@ -1,5 +1,9 @@
 """C10 - malformed netlists are rejected; API-built designs iterate in dependency order."""
 from elab import passcheck
+
+
+def _reraise():
+    raise
 from fam import designs
 
 
@@ -12,7 +16,8 @@ def _fault(task):
         with contextlib.redirect_stdout(io.StringIO()):
             return faults.check_fault(*task)
     except Exception:
-        return dict(failed=True, crashed=True, observed=traceback.format_exc()[-900:], expected='-')
+        from vlib.guard import guarded
+        return guarded(_reraise)
 
 
 def _sites(d):
@@ -26,7 +31,8 @@ def _accept(d):
     try:
         return faults.check_accepts(d)
     except Exception:
-        return dict(failed=True, crashed=True, observed=traceback.format_exc()[-900:], expected='-')
+        from vlib.guard import guarded
+        return guarded(_reraise)
 
 
 def _sched(task):
@@ -35,7 +41,8 @@ def _sched(task):
     try:
         return faults.schedules(task[0], task[1])
     except Exception:
-        return dict(failed=True, crashed=True, observed=traceback.format_exc()[-900:], expected='-')
+        from vlib.guard import guarded
+        return guarded(_reraise)
 
 
 FAULT_DESIGNS = [
